@@ -306,3 +306,212 @@ Theorem computable_accepted_refuted :
   exists p Ip Sq, wf_pipeline p /\ computableb p Ip Sq = true /\ all_readb p Ip Sq = true
     /\ subpipeline p Ip (Some Sq) = Err ValueError.
 Proof. exists w_nullary, [s "x"], [s "y"]. vm_compute. auto. Qed.
+
+(* ====================================================================================================
+   Pipeline.map on the sub-pipeline (scalar case): every kept function is called once and the results are
+   the values of the full pipeline.
+   ==================================================================================================== *)
+Lemma mapM_Ok_transfer {A B} (F G : A -> result B) l ys :
+  (forall x y, In x l -> F x = Ok y -> G x = Ok y) -> mapM F l = Ok ys -> mapM G l = Ok ys.
+Proof.
+  revert ys. induction l as [|a l IH]; intros ys H HF; cbn in *; [assumption|].
+  destruct (F a) as [b|e] eqn:Ea; cbn in HF; [|discriminate]. rewrite (H a b (or_introl eq_refl) Ea). cbn.
+  destruct (mapM F l) as [l'|e] eqn:El; cbn in HF; [|discriminate]. rewrite (IH l'); [assumption| |reflexivity].
+  intros x y Hx. apply H. now right.
+Qed.
+
+Lemma aget_fold_aset (h : str -> str) : forall l st k,
+  aget (fold_left (fun st0 o => aset st0 o (h o)) l st) k = if mem_str k l then Some (h k) else aget st k.
+Proof.
+  induction l as [|x l IH]; intros st k; cbn; [reflexivity|]. rewrite IH.
+  destruct (str_eqb k x) eqn:E; cbn.
+  - apply str_eqb_eq in E. subst x. destruct (mem_str k l); [reflexivity|apply aget_aset_same].
+  - apply str_eqb_neq in E. destruct (mem_str k l); [reflexivity|]. apply aget_aset_other. congruence.
+Qed.
+
+Section MapRun.
+  Variable body : str -> alist -> result str.
+  Variable pick : str -> str -> str.
+  Variable p : pipeline.
+  Variable ls : list (list str).
+  Hypothesis Hwf : wf_P p ls.
+  Variable inputs : alist.
+  Variable Sq : list str.
+  Variable p' : pipeline.
+  Hypothesis Hsub : subpipeline p (akeys inputs) (Some Sq) = Ok p'.
+
+  Let Hk : forall k, In k (akeys inputs) <-> In k (akeys inputs) := fun k => conj (fun x => x) (fun x => x).
+
+  Lemma pdefault_sub cur d : is_output p cur = false -> pdefault p' cur = Some d -> default_of p cur = Some d.
+  Proof.
+    intros Ho H. unfold pdefault in H. apply aget_Some_In in H. apply in_rev in H. unfold default_of.
+    apply (wf_defaults _ _ Hwf). unfold pdefaults in *. apply in_flat_map in H as [g [Hg H]]. apply in_flat_map. exists g.
+    split; [eapply kept_in_p; eauto|]. apply filter_In in H as [H1 H2]. apply filter_In. split; [assumption|]. cbn in *.
+    apply andb_true_iff in H2 as [H2 _]. now rewrite H2, Ho.
+  Qed.
+
+  Definition StoreOK (store : alist) : Prop :=
+    forall o v, aget store o = Some v -> eval_top body pick p inputs o = Ok v.
+
+  Lemma map_args_spec f store args : In f p' -> StoreOK store ->
+    map_args p' inputs store f = Ok args -> eval_args body pick p inputs f = Ok args.
+  Proof.
+    intros Hf Hst. unfold map_args, eval_args, args_with. apply mapM_Ok_transfer. intros [cur orig] y Hin. cbn [fst snd].
+    assert (Hcur : In cur (pnames f)) by (apply in_map_iff; now exists (cur, orig)).
+    assert (Hfp : In f p) by (eapply kept_in_p; eauto).
+    unfold arg_val. destruct (aget (bound f) cur) eqn:Eb; [auto|]. destruct (aget inputs cur) eqn:Ek; [auto|].
+    assert (Hni : ~ In cur (akeys inputs)) by now apply aget_None_iff.
+    destruct (kept_param p (akeys inputs) Sq p' Hsub f cur Hf Hcur Eb Hni) as [Ho'|[Ho1 [Ho2 _]]].
+    - rewrite Ho', (is_output_sub p ls Hwf _ _ _ Hsub cur Ho').
+      destruct (aget store cur) as [v|] eqn:Es; cbn; [|discriminate]. intros E. inversion E; subst y.
+      apply Hst in Es. pose proof (is_output_sub p ls Hwf _ _ _ Hsub cur Ho') as Hop. clear Ho'. rename Hop into Ho'.
+      apply is_output_true in Ho' as [g Eg].
+      assert (Hev : eval body pick (length p) p inputs cur = eval_top body pick p inputs cur).
+      { unfold eval_top. apply (eval_fuel body pick p inputs ls Hwf); [|apply rk_lt_N; exact Hwf].
+        rewrite (rk_producer p ls _ _ Eg). rewrite <- ahas_false_iff in Eb.
+        pose proof (wf_rank_edge _ _ Hwf f g cur Hfp Hcur Eb Eg). pose proof (wf_rank_lt _ _ Hwf f Hfp). lia. }
+      now rewrite Hev, Es.
+    - rewrite Ho1, Ho2. destruct (pdefault p' cur) as [d|] eqn:Ed; cbn; [|discriminate].
+      intros E. inversion E; subst y. now rewrite (pdefault_sub cur d Ho2 Ed).
+  Qed.
+
+  Definition funcs_of (l : list str) : list pfunc :=
+    flat_map (fun n => match node_func p' n with Some f => [f] | None => [] end) l.
+
+  Record MInv (acc : alist * list call) (done : list str) : Prop := {
+    mi_store : StoreOK (fst acc);
+    mi_outs : forall f o, In f (funcs_of done) -> In o (outs f) -> ahas (fst acc) o = true;
+    mi_log : map fst (snd acc) = map fname (funcs_of done);
+  }.
+
+  Lemma fold_err l e : fold_left (map_step body pick p' inputs) l (Err e) = Err e.
+  Proof. induction l; cbn; auto. Qed.
+
+  Lemma funcs_of_in_p' l f : In f (funcs_of l) -> In f p' /\ In (fid f) l.
+  Proof.
+    unfold funcs_of. intros H. apply in_flat_map in H as [n [Hn H]]. destruct (node_func p' n) as [g|] eqn:E; [|contradiction].
+    destruct H as [<-|[]]. apply node_func_Some in E as [H1 H2]. split; [assumption|]. now rewrite H2.
+  Qed.
+
+  Lemma map_fold_spec : forall l done acc acc', MInv acc done ->
+    fold_left (map_step body pick p' inputs) l (Ok acc) = Ok acc' -> MInv acc' (done ++ l).
+  Proof.
+    induction l as [|n l IH]; intros done acc acc' HI H; cbn in H.
+    - inversion H; subst. now rewrite app_nil_r.
+    - destruct acc as [store lg]. cbn [bind] in H.
+      replace (done ++ n :: l) with ((done ++ [n]) ++ l) by now rewrite <- app_assoc.
+      destruct (node_func p' n) as [f|] eqn:En.
+      + destruct (map_args p' inputs store f) as [args|e] eqn:Ea; cbn [bind] in H; [|now rewrite fold_err in H].
+        destruct (body (fname f) args) as [r|e] eqn:Eb; cbn [bind] in H; [|now rewrite fold_err in H].
+        apply (IH (done ++ [n])) in H; [assumption|].
+        pose proof (node_func_Some _ _ _ En) as [Hf Hfid].
+        pose proof (map_args_spec f store args Hf (mi_store _ _ HI) Ea) as Hargs.
+        assert (Hfp : In f p) by (eapply kept_in_p; eauto).
+        assert (Hfo : funcs_of (done ++ [n]) = funcs_of done ++ [f]).
+        { unfold funcs_of. rewrite flat_map_app. cbn. now rewrite En, app_nil_r. }
+        constructor; cbn [fst snd].
+        * intros o v Hv. rewrite (aget_fold_aset (fun o => route pick f o r)) in Hv.
+          destruct (mem_str o (outs f)) eqn:Eo; [|now apply (mi_store _ _ HI)].
+          inversion Hv; subst v. apply mem_str_In in Eo. unfold eval_top. cbn [eval].
+          rewrite (producer_unique p (wf_outs_nd _ _ Hwf) f o Hfp Eo).
+          unfold eval_args in Hargs. rewrite Hargs. cbn [bind]. now rewrite Eb.
+        * intros g o Hg Ho. rewrite Hfo in Hg. apply ahas_true_iff. rewrite (aget_fold_aset (fun o => route pick f o r)).
+          apply in_app_iff in Hg as [Hg|[<-|[]]].
+          -- destruct (mem_str o (outs f)); [eauto|]. apply ahas_true_iff. eapply (mi_outs _ _ HI); eauto.
+          -- apply mem_str_In in Ho. rewrite Ho. eauto.
+        * pose proof (mi_log _ _ HI) as Hl. cbn [snd] in Hl. rewrite Hfo, !map_app. cbn [map fst]. now rewrite <- Hl.
+      + apply (IH (done ++ [n])) in H; [assumption|].
+        assert (Hfo : funcs_of (done ++ [n]) = funcs_of done).
+        { unfold funcs_of. rewrite flat_map_app. cbn. now rewrite En, app_nil_r. }
+        constructor; cbn [fst snd]; try rewrite Hfo; [apply (mi_store _ _ HI)|apply (mi_outs _ _ HI)|apply (mi_log _ _ HI)].
+  Qed.
+
+  (* run_map on the validated sub-pipeline *)
+  Theorem run_generations_spec store lg : run_generations body pick p' inputs = Ok (store, lg) ->
+    (forall o, is_output p' o = true -> exists v, aget store o = Some v /\ eval_top body pick p inputs o = Ok v)
+    /\ (forall f, In f p -> (In f p' <-> In (fname f) (map fst lg))).
+  Proof.
+    unfold run_generations. destruct (topo_generations (fgraph p')) as [layers|] eqn:Et; [|discriminate].
+    intros H. assert (HI0 : MInv ([], []) []).
+    { constructor; cbn; [intros o v E; discriminate|intros f o []|reflexivity]. }
+    pose proof (map_fold_spec _ [] _ _ HI0 H) as HI. cbn [app] in HI.
+    assert (Hcov : forall f, In f p' -> In f (funcs_of (concat layers))).
+    { intros f Hf. unfold topo_generations in Et. destruct (kahn_sound _ _ _ _ Et) as [_ [Hc _]].
+      destruct (Hc (fid f)) as [l [Hl1 Hl2]]; [cbn; now apply in_map|].
+      unfold funcs_of. apply in_flat_map. exists (fid f). split; [apply in_concat; eauto|].
+      assert (Hfp : In f p) by (eapply kept_in_p; eauto).
+      destruct (node_func p' (fid f)) as [g|] eqn:Eg.
+      - apply node_func_Some in Eg as [Hg Hfid]. left. eapply (fid_inj p ls Hwf); eauto. eapply kept_in_p; eauto.
+      - unfold node_func in Eg. eapply find_none in Eg; eauto. cbn in Eg. now rewrite str_eqb_refl in Eg. }
+    split.
+    - intros o Ho. apply is_output_true in Ho as [f Ef]. apply producer_Some in Ef as [Hf Hof].
+      pose proof (mi_outs _ _ HI f o (Hcov f Hf) Hof) as Hh. apply ahas_true_iff in Hh as [v Hv]. exists v.
+      split; [assumption|]. now apply (mi_store _ _ HI).
+    - intros f Hfp. pose proof (mi_log _ _ HI) as Hl. cbn [snd] in Hl. rewrite Hl. split.
+      + intros Hf. apply in_map. now apply Hcov.
+      + intros Hin. apply in_map_iff in Hin as [g [Eg Hg]]. apply funcs_of_in_p' in Hg as [Hg _].
+        assert (g = f) by (eapply (fname_inj p ls Hwf); eauto; eapply kept_in_p; eauto). now subst g.
+  Qed.
+  Lemma NoDup_map_inj_in' {A B} (f : A -> B) l :
+    (forall x y, In x l -> In y l -> f x = f y -> x = y) -> NoDup l -> NoDup (map f l).
+  Proof.
+    induction l as [|a l IH]; intros Hinj Hnd; cbn; [constructor|]. inversion Hnd; subst. constructor.
+    - intros Hin. apply in_map_iff in Hin as [b [E Hb]]. assert (b = a) by (apply Hinj; [now right|now left|assumption]).
+      subst b. contradiction.
+    - apply IH; auto. intros x y Hx Hy. apply Hinj; now right.
+  Qed.
+
+  Lemma funcs_of_NoDup : forall l, NoDup l -> NoDup (map fname (funcs_of l)).
+  Proof.
+    induction l as [|n l IH]; intros Hnd; [constructor|]. inversion Hnd; subst.
+    change (funcs_of (n :: l)) with ((match node_func p' n with Some f => [f] | None => [] end) ++ funcs_of l).
+    destruct (node_func p' n) as [f|] eqn:En; [|now apply IH]. cbn. constructor; [|now apply IH].
+    intros Hin. apply in_map_iff in Hin as [g [Eg Hg]]. apply funcs_of_in_p' in Hg as [Hg1 Hg2].
+    apply node_func_Some in En as [Hf Hfid].
+    assert (g = f) by (eapply (fname_inj p ls Hwf); eauto; eapply kept_in_p; eauto). subst g. congruence.
+  Qed.
+
+  Theorem run_generations_once store lg : run_generations body pick p' inputs = Ok (store, lg) -> NoDup (map fst lg).
+  Proof.
+    unfold run_generations. destruct (topo_generations (fgraph p')) as [layers|] eqn:Et; [|discriminate].
+    intros H. assert (HI0 : MInv ([], []) []).
+    { constructor; cbn; [intros o v E; discriminate|intros f o []|reflexivity]. }
+    pose proof (map_fold_spec _ [] _ _ HI0 H) as HI. cbn [app] in HI.
+    pose proof (mi_log _ _ HI) as Hl. cbn [snd] in Hl. rewrite Hl. apply funcs_of_NoDup.
+    unfold topo_generations in Et. apply (kahn_partition _ _ _ _) in Et as [Hnd _]; [assumption|]. cbn.
+    apply NoDup_map_inj_in'.
+    - intros x y Hx Hy. apply (fid_inj p ls Hwf); eapply kept_in_p; eauto.
+    - destruct (sub_facts p (akeys inputs) Sq p' Hsub) as [b [-> _]]. unfold keep. apply filter_NoDup.
+      eapply NoDup_map_inv. apply (wf_names_nd _ _ Hwf).
+  Qed.
+End MapRun.
+
+(* map(inputs, output_names=S [, auto_subpipeline]) : values of the full pipeline; the calls are the kept functions *)
+Theorem map_run_spec body pick p inputs Sq auto store lg :
+  wf_pipeline p -> map_run body pick p inputs (Some Sq) auto = Ok (store, lg) ->
+  exists p', subpipeline p (akeys inputs) (Some Sq) = Ok p'
+    /\ (forall o, In o Sq -> exists v, aget store o = Some v /\ eval_top body pick p inputs o = Ok v)
+    /\ (forall f, In f p -> (In f p' <-> In (fname f) (map fst lg)))
+    /\ NoDup (map fst lg).
+Proof.
+  intros Hwf H. destruct (wf_pipeline_elim p Hwf) as [ls Hw]. unfold map_run in H.
+  replace (auto || true) with true in H by now destruct auto.
+  destruct (subpipeline p (akeys inputs) (Some Sq)) as [p'|e] eqn:Es; cbn [bind] in H; [|discriminate].
+  destruct (validate_complete_inputs p' inputs); cbn [bind] in H; [|discriminate].
+  exists p'. split; [reflexivity|].
+  destruct (run_generations_spec body pick p ls Hw inputs Sq p' Es store lg H) as [H1 H2].
+  split; [|split; [exact H2|exact (run_generations_once body pick p ls Hw inputs Sq p' Es store lg H)]].
+  intros o Ho. apply H1. destruct (sub_facts p (akeys inputs) Sq p' Es) as [b [_ [Houts _]]]. now apply Houts.
+Qed.
+
+(* with root arguments as inputs the calls are exactly the needed functions, each once *)
+Theorem map_calls_exactly_needed body pick p inputs Sq auto store lg :
+  wf_pipeline p -> map_run body pick p inputs (Some Sq) auto = Ok (store, lg) ->
+  (forall k, In k (akeys inputs) -> is_output p k = false) ->
+  NoDup (map fst lg)
+  /\ forall f, In f p -> (In (fname f) (map fst lg) <-> exists o, In o Sq /\ In f (needed_top p inputs o)).
+Proof.
+  intros Hwf H Hr. destruct (map_run_spec body pick p inputs Sq auto store lg Hwf H) as [p' [Es [_ [H2 H3]]]].
+  split; [assumption|]. intros f Hf. rewrite <- (H2 f Hf).
+  apply (subpipeline_needed_exact_roots p (akeys inputs) Sq p' inputs Hwf Es (fun k => conj (fun x => x) (fun x => x)) Hr f Hf).
+Qed.
